@@ -86,7 +86,8 @@ func Run(r *rt.Run) error {
 	}
 	maxLen = fullLen
 	// random: registration churn interleaved with collects on both topics
-	matches := []string{"none", "changed", "warn", "critchanged", "never"}
+	matches := []string{"none", "changed", "warn", "critchanged", "never", "tagA", "tagAwarn"}
+	tags := []string{"none", "a", "b", "a", "none"}
 	randCfg := func() Cfg {
 		c := Cfg{Match: matches[r.Rand.Intn(len(matches))]}
 		if r.Rand.Intn(3) == 0 {
@@ -111,8 +112,9 @@ func Run(r *rt.Run) error {
 					tp = "t2"
 				}
 				s := alpha[r.Rand.Intn(len(alpha))]
-				tr.Collect(tp, s.id, s.lvl, k)
-				key += fmt.Sprintf(",%s%s%d", tp, s.id, s.lvl)
+				tg := tags[r.Rand.Intn(len(tags))]
+				tr.CollectTag(tp, s.id, s.lvl, k, tg)
+				key += fmt.Sprintf(",%s%s%d%s", tp, s.id, s.lvl, tg)
 			case x < 8:
 				if _, ok := tr.hs[h]; !ok {
 					c := randCfg()
@@ -129,8 +131,22 @@ func Run(r *rt.Run) error {
 					if c.Topic == "t2" {
 						c.Kind, c.Targets = "rec", nil
 					}
-					tr.Replace(h, c)
-					key += fmt.Sprintf(",U%s%v", h, c)
+					// half of the updates also rename the handler (to a currently unused name)
+					newName := ""
+					if r.Rand.Intn(2) == 0 {
+						for _, cand := range hnames {
+							if _, used := tr.hs[cand]; !used {
+								newName = cand
+							}
+						}
+					}
+					if newName != "" {
+						tr.Rename(h, newName, c)
+						key += fmt.Sprintf(",N%s>%s%v", h, newName, c)
+					} else {
+						tr.Replace(h, c)
+						key += fmt.Sprintf(",U%s%v", h, c)
+					}
 				}
 			}
 		}
